@@ -43,6 +43,16 @@ VW_PATH_INPUT = {
 }
 DICT_INPUT = {"virtual_world": "vw", "programs": "prog"}
 
+# harness convention (not extracted): content number v of the virtual-world dictionary carries the
+# simulated period PERIODS[min(v // 4, len - 1)] = (first day as offset from 2021-01-01, number of days);
+# v % 4 selects the repair cost.  cache.py builds the dictionaries from this, render() writes it as
+# `periodOf` into the generated table.
+PERIODS = [(0, 25), (2, 25), (0, 20)]
+
+
+def period_of(v):
+    return PERIODS[min(v // 4, len(PERIODS) - 1)]
+
 
 def _src(name):
     path = os.path.join(shim.REPO_SRC, "initialization", name)
@@ -353,6 +363,28 @@ def extract_preseed():
                     raise ExtractError(f"{path}:{n.lineno}: write to an unknown location")
                 ws.append((files[oc[0]], n.lineno))
         out[key] = sorted(ws, key=lambda x: x[1])
+    # reuse rule of the daily seed series
+    fn = _func(tree, "gen_seed_timeseries", path)
+    outer = [n for n in fn.body if isinstance(n, ast.If) and "os.path.isfile(preseed_loc)" in ast.unparse(n.test)]
+    if len(outer) != 1 or ast.unparse(outer[0].test) != "os.path.isfile(preseed_loc) and (not force_remake)":
+        raise ExtractError(f"{path}: `if os.path.isfile(preseed_loc) and not force_remake` not found in gen_seed_timeseries")
+    inner = [n for n in outer[0].body if isinstance(n, ast.If)]
+    if len(inner) != 1 or not (len(inner[0].body) == 1 and isinstance(inner[0].body[0], ast.Return)):
+        raise ExtractError(f"{path}:{outer[0].lineno}: reuse test of the stored seed series not found")
+    test = inner[0].test
+    conj = [ast.unparse(c) for c in (test.values if isinstance(test, ast.BoolOp) and isinstance(test.op, ast.And) else [test])]
+    want_len = "(sim_end_date - sim_start_date).days + 1 == len(seed_ts_dict)"
+    if want_len not in conj:
+        raise ExtractError(f"{path}:{inner[0].lineno}: the reuse test does not compare the length: {conj}")
+    rest = sorted(c for c in conj if c != want_len)
+    reset = any(isinstance(n, ast.Assign) and ast.unparse(n) == "seed_ts_dict = {}" for n in outer[0].body
+                if n.lineno > inner[0].lineno)
+    if rest == ["sim_end_date in seed_ts_dict", "sim_start_date in seed_ts_dict"] and reset:
+        out["tsExact"] = (True, inner[0].lineno)
+    elif rest == []:
+        out["tsExact"] = (False, inner[0].lineno)
+    else:
+        raise ExtractError(f"{path}:{inner[0].lineno}: unexpected reuse test of the stored seed series: {conj}, reset={reset}")
     return out
 
 
@@ -390,7 +422,9 @@ def render(t):
         + "; required " + str([ln for _, ln in t["required"]]) + "; freshOps " + str([ln for _, ln in t["freshOps"]])
         + "; regenOps " + str([ln for _, ln in t["regenOps"]]) + "; emisRegen " + str([ln for _, ln in t["emisRegen"]])
         + "; emisExtend " + str([ln for _, ln in t["emisExtend"]]) + "; seedWrites "
-        + str([ln for _, ln in t["seedWrites"]]) + "; tsWrites " + str([ln for _, ln in t["tsWrites"]]),
+        + str([ln for _, ln in t["seedWrites"]]) + "; tsWrites " + str([ln for _, ln in t["tsWrites"]])
+        + "; tsExact " + str(t["tsExact"][1]),
+        "periodOf: harness convention PERIODS = " + str(PERIODS) + " (cache_extract.py), not extracted",
         "-/",
         "namespace LdarModel.Generated.Cache",
         "open LdarModel.Cache",
@@ -406,6 +440,10 @@ def render(t):
         "  emisExtend := [" + ", ".join(f".{p}" for p, _ in t["emisExtend"]) + "]",
         "  seedWrites := [" + ", ".join(f".{f}" for f, _ in t["seedWrites"]) + "]",
         "  tsWrites := [" + ", ".join(f".{f}" for f, _ in t["tsWrites"]) + "]",
+        "  tsExact := " + ("true" if t["tsExact"][0] else "false"),
+        "  periodOf := fun v => match v / 4 with"
+        + "".join(f" | {i} => ({a}, {b})" for i, (a, b) in enumerate(PERIODS[:-1]))
+        + f" | _ => ({PERIODS[-1][0]}, {PERIODS[-1][1]})",
         "",
         "end LdarModel.Generated.Cache",
         "",
